@@ -571,3 +571,76 @@ package runtime
 //@   prop C05
 //@   effectsonly
 //@   effects catches-termination
+
+// ---------------------------------------------------------------------------
+// C16: numeric for loops (manual §3.3.5).  The two halves of the `for`
+// instruction live inside LuaCont.RunInThread; they are extracted mechanically
+// (byte for byte, see /verif/DESIGN.md §4.8) and verified as step contracts
+// against the exact number order of C02.
+// ---------------------------------------------------------------------------
+
+//@ macro numLt(x, y) = ite(isInt(x), ite(isInt(y), x.AsInt() < y.AsInt(), spec.ltIntFloat(x.AsInt(), y.AsFloat())), ite(isInt(y), spec.ltFloatInt(x.AsFloat(), y.AsInt()), x.AsFloat() < y.AsFloat()))
+//@ macro numLe(x, y) = ite(isInt(x), ite(isInt(y), x.AsInt() <= y.AsInt(), spec.leIntFloat(x.AsInt(), y.AsFloat())), ite(isInt(y), spec.leFloatInt(x.AsFloat(), y.AsInt()), x.AsFloat() <= y.AsFloat()))
+//@ macro numPos(x) = ite(isInt(x), x.AsInt() > 0, x.AsFloat() > 0)
+
+// Registers are written through setReg; what is written is asserted at the
+// call sites of the fragments below.
+//@ func setReg
+//@   external
+
+//@ func StringToNumber
+//@   trusted
+//@   modifies nothing
+
+//@ func ToNumberValue
+//@   prop C16
+//@   arith bv
+//@   requires valueOK(v)
+//@   modifies nothing
+//@   ensures isInt(v) ==> result0 == v && result1 == IsInt
+//@   ensures isFloat(v) ==> result0 == v && result1 == IsFloat
+//@   ensures result1 == IsInt || result1 == IsFloat || result1 == NaN
+//@   ensures result1 == NaN ==> result0 == v && !isNum(v)
+//@   ensures result1 == IsInt ==> isInt(result0) && result0.iface == dummyInt64
+//@   ensures result1 == IsFloat ==> isFloat(result0) && result0.iface == dummyFloat64
+//@   ensures !isNum(v) && !typeis(v.iface, string) ==> result1 == NaN
+
+// Advancing the loop: the next value is start+step; the loop ends (the control
+// register becomes nil) exactly when that value passes the limit or, for an
+// integer loop, when the addition leaves the integer range - a wrapped value is
+// never delivered.
+//@ fragment foradv of (*LuaCont).RunInThread at for RunLoop/switch opcode.TypePfx()/case code.Type7Pfx/if opcode.GetF()/then
+//@   prop C16
+//@   arith bv
+//@   requires isNum(start) && isNum(step) && isNum(stop) && (isInt(start) == isInt(step))
+//@   requires (isInt(step) ==> step.AsInt() != 0) && (isFloat(step) ==> step.AsFloat() != 0)
+//@   requires (isFloat(stop) ==> !isNaN(stop.AsFloat())) && (isFloat(start) ==> !isNaN(start.AsFloat()))   // established by forprep / the previous foradv: otherwise the control register is nil
+//@   modifies everything()
+//@   assert_before_call setReg: isInt(start) ==> ($val == NilValue) == (spec.addOverflows(start.AsInt(), step.AsInt()) || ite(step.AsInt() > 0, numLt(stop, IntValue(start.AsInt() + step.AsInt())), numLt(IntValue(start.AsInt() + step.AsInt()), stop)))
+//@   assert_before_call setReg: isInt(start) && $val != NilValue ==> isIntVal($val, start.AsInt() + step.AsInt())
+//@   assert_before_call setReg: isFloat(start) && $val != NilValue ==> isFloatVal($val, start.AsFloat() + step.AsFloat())
+//@   assert_before_call setReg: isFloat(start) ==> ($val == NilValue) == !ite(step.AsFloat() > 0, numLe(FloatValue(start.AsFloat() + step.AsFloat()), stop), numLe(stop, FloatValue(start.AsFloat() + step.AsFloat())))
+//@   assert_before_call setReg: $reg == startReg
+//@   ensures result0
+
+// Preparing the loop: all three values must be numbers and the step non-zero
+// (otherwise an error); the loop is an integer loop exactly when start and step
+// are integers, else both are converted to floats; the control register is nil
+// exactly when the loop must not run at all.
+//@ fragment forprep of (*LuaCont).RunInThread at for RunLoop/switch opcode.TypePfx()/case code.Type7Pfx/if opcode.GetF()/else
+//@   prop C16
+//@   arith bv
+//@   requires c != nil && valueOK(start) && valueOK(stop) && valueOK(step)
+//@   requires !typeis(start.iface, string) && !typeis(stop.iface, string) && !typeis(step.iface, string)
+//@   modifies everything()
+//@   ensures !result0 ==> result2 != nil && result1 == nil
+//@   ensures result0 == (isNum(start) && isNum(stop) && isNum(step) && !(isInt(step) && step.AsInt() == 0) && !(isFloat(step) && step.AsFloat() == 0))
+//@   assert_before_call setReg#1: $reg == startReg
+//@   assert_before_call setReg#1: isInt(start) && isInt(step) ==> ($val == NilValue) == !ite(step.AsInt() > 0, numLe(start, stop), numLe(stop, start))
+//@   assert_before_call setReg#1: isInt(start) && isInt(step) && $val != NilValue ==> $val == start
+//@   assert_before_call setReg#1: isInt(start) && isFloat(step) ==> ($val == NilValue) == !ite(step.AsFloat() > 0, numLe(FloatValue(float64(start.AsInt())), stop), numLe(stop, FloatValue(float64(start.AsInt()))))
+//@   assert_before_call setReg#1: isInt(start) && isFloat(step) && $val != NilValue ==> isFloatVal($val, float64(start.AsInt()))
+//@   assert_before_call setReg#1: isFloat(start) ==> ($val == NilValue) == !ite(numPos(step), numLe(start, stop), numLe(stop, start))
+//@   assert_before_call setReg#1: isFloat(start) && $val != NilValue ==> $val == start
+//@   assert_before_call setReg#2: $reg == stopReg && $val == stop
+//@   assert_before_call setReg#3: $reg == stepReg && (isInt(start) && isInt(step) ==> $val == step) && (isFloat(step) ==> $val == step) && (isFloat(start) && isInt(step) ==> isFloatVal($val, float64(step.AsInt())))
